@@ -48,8 +48,9 @@ Print Assumptions tracer_log_append_only.
 Theorem tracer_source_shape :
   tr_return_ops = [op_retv; op_retc] /\ tr_yield_ops = [op_yield] /\ tr_yield_skips_coroutines = true
   /\ tr_handle_call_steps = ["sample"; "lookup"; "unresolved_return"; "resumed_return"; "argnames"; "bind"; "store"]%string
-  /\ tr_call_gates = ["unsupported_event"; "trace_types"; "filter_rejects"]%string.
-Proof. repeat split; reflexivity. Qed.
+  /\ tr_call_gates = ["unsupported_event"; "filter_rejects"]%string
+  /\ (forall c, gated c = negb (c_admit c)).
+Proof. repeat split; try reflexivity. Qed.
 Print Assumptions tracer_source_shape.
 
 (* Non-vacuity: two interleaved generator frames and a coroutine; the history is well formed and the log is
